@@ -135,9 +135,19 @@ package cmd
 //@   pure
 //@   requires client != nil
 
+// The two classification loops of status (C13): what they have collected so far is exactly what the statement asks for,
+// over the part of the walk / of the index already visited. (How the three lists are printed is left to the stand-in.)
 //@ func statusCmd.RunE
 //@   requires clientWF() && cmd != nil
 //@   invariant-all clientWF()
+//@   loop 0:
+//@     invariant [new-sound] {C13} forall k int :: 0 <= k && k < len(newFiles) ==> exists j int :: 0 <= j && j < it && newFiles[k] == filePaths[j] && !store.tracked(client.Idx, filePaths[j])
+//@     invariant [new-complete] {C13} forall j int :: 0 <= j && j < it && !store.tracked(client.Idx, filePaths[j]) ==> exists k int :: 0 <= k && k < len(newFiles) && newFiles[k] == filePaths[j]
+//@   loop 1:
+//@     invariant [deleted-sound] {C13} forall k int :: 0 <= k && k < len(deletedFiles) ==> exists i int :: 0 <= i && i < it && deletedFiles[k] == string(client.Idx.Entries[i].Path) && isAbsent(fs, deletedFiles[k])
+//@     invariant [modified-sound] {C13} forall k int :: 0 <= k && k < len(modifiedFiles) ==> exists i int :: 0 <= i && i < it && modifiedFiles[k] == string(client.Idx.Entries[i].Path) && isFile(fs, modifiedFiles[k]) && object.objId(object.BlobObject, content(fs, modifiedFiles[k])) != string(client.Idx.Entries[i].Hash)
+//@     invariant [modified-complete] {C13} forall i int :: 0 <= i && i < it && isFile(fs, string(client.Idx.Entries[i].Path)) && object.objId(object.BlobObject, content(fs, string(client.Idx.Entries[i].Path))) != string(client.Idx.Entries[i].Hash) ==> exists k int :: 0 <= k && k < len(modifiedFiles) && modifiedFiles[k] == string(client.Idx.Entries[i].Path)
+//@     invariant [unmodified-unreported] {C13} forall k int :: 0 <= k && k < len(deletedFiles) ==> !isFile(fs, deletedFiles[k])
 
 //@ func switchCmd.PreRunE
 //@   returns err
